@@ -106,7 +106,7 @@ fn run(ctx: &Ctx) -> Run {
         }
         // (2) deep curves: digit patterns and random positions, distinctness within the sample
         let per = ctx.n(40_000, 1_000_000) / threads as u64 + 1;
-        for n in (exhaustive_to + 1)..=28 {
+        for n in (exhaustive_to + 1)..=29 {
             for oi in 0..6 {
                 let mut seen: HashSet<(i64, i64)> = HashSet::new();
                 let mut positions: HashSet<u64> = HashSet::new();
